@@ -771,3 +771,20 @@ def join(R):
         R.ob('C01.join', 'payload = in-order join of every fragment', ok, 'payload = %s' % U(v), func=f, node=v)
         fresh = isinstance(v, ast.Call) and U(v.func) == "b''.join"
         R.ob('C01.join', 'joined payload is a fresh immutable bytes object', fresh, 'payload = %s' % U(v), func=f, node=v)
+    # ... and every message that carries a payload is made from that payload: no path returns a message assembled some other
+    # way (fragments decoded one by one, the first frame only)
+    for r in g.live_nodes():
+        if not (r.kind == 'stmt' and isinstance(r.ast, ast.Return) and isinstance(r.ast.value, ast.Call)):
+            continue
+        c = r.ast.value
+        args = [a for a in list(c.args) + [k.value for k in c.keywords] if U(a) not in ('opcode', 'cls')]
+        if not args:
+            continue
+        a = args[0]
+        ds = rd.defs_at(r, a.id) if isinstance(a, ast.Name) else set()
+        ok = len(args) == 1 and bool(ds) and ds <= set(defs)
+        ok = ok and all_paths_pass(g, [g.entry], defs, [r], skip_edge=nx)
+        R.ob('C01.join', 'message made from the joined payload', bool(ok),
+             '`%s` builds the message from %s, not from the joined (or inflated) payload of all fragments: fragments handled '
+             'one by one lose what straddles a frame boundary (a code point split across two frames)' % (U(r.ast)[:70], U(a)[:50]),
+             func=f, node=r.ast, construct='message from %s' % U(a)[:50])
